@@ -142,7 +142,7 @@ func c15Run(c *vk.Ctx) {
 		})
 	}
 	// --- failure scenarios ---
-	scenarios := []string{"junk", "junk-fin", "replay-client", "reflect-server", "bad-address-type", "dest-loopback", "dest-private", "dest-mapped-private", "connect-refused", "client-rst-mid-relay", "cipher-error-mid-relay", "target-rst-mid-answer", "client-fin-immediately", "empty-then-close", "client-rst-while-target-streams", "cipher-error-after-target-finished", "truncated-chunk-after-target-finished", "listener-closed-before-address"}
+	scenarios := []string{"junk", "junk-fin", "replay-client", "reflect-server", "bad-address-type", "dest-loopback", "dest-private", "dest-mapped-private", "connect-refused", "client-rst-mid-relay", "cipher-error-mid-relay", "target-rst-mid-answer", "client-fin-immediately", "empty-then-close", "client-rst-while-target-streams", "cipher-error-after-target-finished", "truncated-chunk-after-target-finished", "listener-closed-before-address", "address-stalled"}
 	for i := 0; i < c.N(90, 450); i++ {
 		sc := scenarios[i%len(scenarios)]
 		jobs = append(jobs, func(jr *rand.Rand) bool { return c15Scenario(c, jr, env, keys, sc) })
@@ -426,6 +426,18 @@ func c15Scenario(c *vk.Ctx, r *rand.Rand, env *relayEnv, keys []KeySpec, sc stri
 		time.Sleep(30 * time.Millisecond)
 		cl.Conn.Close()
 		ex.statuses, ex.authed = []string{"ERR_READ_ADDRESS"}, true
+	case "address-stalled":
+		// a client with a valid key sends the first bytes of its address and then nothing until the read
+		// deadline: it authenticated, so this is not a probe, whatever made the address unreadable
+		part := sscodec.AddrIP(ip, hub.Port, false)[:1+r.Intn(5)]
+		if r.Intn(2) == 0 {
+			part = []byte{3, byte(20 + r.Intn(200)), 'a', 'b'}
+		}
+		cl.WriteRaw(cl.Enc.Encode(part, nil))
+		time.Sleep(relayTimeout + 400*time.Millisecond)
+		cl.Conn.Close() // (the server drains an authenticated stream that turned unreadable until the client closes)
+		ex.statuses, ex.authed = []string{"ERR_READ_ADDRESS"}, true
+		c.Count("authenticated_clients_stalled_mid_address", 1)
 	case "dest-loopback":
 		cl.WriteRaw(cl.Enc.Encode(sscodec.AddrIP(net.IPv4(127, 0, 0, byte(1+r.Intn(200))), hub.Port, false), nil))
 		watchClose(cl, time.Now().Add(c06B))
